@@ -371,7 +371,7 @@ func TestC08ValuesMessages(t *testing.T) {
 		t.Skip()
 	}
 
-	kit.SetChecks(10_000, 50_000)
+	kit.SetChecks(30_000, 150_000)
 	rapid.Check(t, func(rt *rapid.T) {
 		run(rt, genMsgCase(rt, types, func() *fillOpts { return &fillOpts{fillDash: documentedDash} }))
 	})
@@ -390,7 +390,7 @@ func TestC08ValuesMessagesInvalidUTF8(t *testing.T) {
 		t.Skip()
 	}
 	altered := map[string]int{}
-	kit.SetChecks(1_500, 5_000)
+	kit.SetChecks(3_000, 10_000)
 	rapid.Check(t, func(rt *rapid.T) {
 		c := genMsgCase(rt, types, func() *fillOpts { return &fillOpts{invalidUTF8: true, fillDash: documentedDash} })
 		var in, out []messaging.Msg
@@ -616,7 +616,7 @@ func TestC08ValuesEvents(t *testing.T) {
 		t.Skip()
 	}
 
-	kit.SetChecks(8_000, 40_000)
+	kit.SetChecks(30_000, 150_000)
 	rapid.Check(t, func(rt *rapid.T) {
 		var c c08EvCase
 		switch rapid.IntRange(0, 3).Draw(rt, "t0class") {
@@ -1016,7 +1016,7 @@ func TestC08ValuesContainers(t *testing.T) {
 			Key: rapid.IntRange(0, len(c08Keys)-1).Draw(rt, "key"), Old: rapid.IntRange(0, len(c08Keys)-1).Draw(rt, "old"),
 			Delay: rapid.IntRange(0, 3).Draw(rt, "delay"), Item: rapid.IntRange(0, len(c08ItemPool)-1).Draw(rt, "item")}
 	}
-	kit.SetChecks(6_000, 30_000)
+	kit.SetChecks(20_000, 100_000)
 	rapid.Check(t, func(rt *rapid.T) {
 		c := c08ContCase{
 			BufName: rapid.SampledFrom([]string{"Buf", "", "GPU[0].\"Buf\"<é>"}).Draw(rt, "bufName"),
@@ -1147,7 +1147,7 @@ func TestC08ValuesLibState(t *testing.T) {
 		t.Skip()
 	}
 
-	kit.SetChecks(4_000, 20_000)
+	kit.SetChecks(12_000, 60_000)
 	rapid.Check(t, func(rt *rapid.T) {
 		c := c08LibCase{Type: rapid.IntRange(0, len(libStates)-1).Draw(rt, "type")}
 		c.Name = libStates[c.Type].Name
@@ -1192,7 +1192,7 @@ func c08KnownNilEmpty(t *testing.T, sub, typeName, path string) {
 		f.Set(reflect.MakeSlice(f.Type(), 1, 1))
 		cur = f.Index(0)
 	}
-	out, saved, _, err := e.RT(v.Interface())
+	out, _, _, err := e.RT(v.Interface())
 	if err != nil {
 		s.Fail(t, path, "state-roundtrip-error:"+typeName, "%v", err)
 		return
@@ -1204,7 +1204,7 @@ func c08KnownNilEmpty(t *testing.T, sub, typeName, path string) {
 			return
 		}
 		s.Note(path, true, "reproduces")
-		s.KnownStillFails(t, path, sig, fmt.Sprintf("%s: %s = empty non-nil slice -> checkpoint %s -> nil", typeName, path, saved))
+		s.KnownStillFails(t, path, sig, fmt.Sprintf("%s: %s = empty non-nil slice is omitted from the checkpoint (omitempty) and restored as nil", typeName, path))
 		return
 	}
 	s.Note(path, true, "holds")
